@@ -30,6 +30,7 @@ func c15Gen(rt *rapid.T) wProg {
 	p.Cfg.CallsOffIce = !p.Cfg.Calls && gPct(rt, 60)
 	p.Sess = append([]int(nil), gPick(rt, [][]int{{0, 1, 2}, {0, 0, 1, 1, 2}, {0, 1, 1, 2}, {0, 0, 1, 2}}, "layout")...)
 	gGrpc(rt, &p, 20)
+	gLat(rt, &p, 25)
 	first := map[int]int{}
 	for s, u := range p.Sess {
 		if _, ok := first[u]; !ok {
